@@ -818,7 +818,7 @@ def mime_nontrivial(case, ls):
 # ---------------------------------------------------------- ignore_grads_haiku
 
 IG_SHAPES = {'w': (2,), 'b': (), 's': (1, 2)}
-IG_OPTS = ['adam', 'momentum', 'sgd', 'nesterov', 'adagrad', 'rmsprop']
+IG_OPTS = ['adam', 'momentum', 'sgd', 'nesterov', 'adagrad', 'rmsprop', 'adamw', 'sgd_decay']
 IG_NAN, IG_INF = 1000, 1001
 
 
@@ -851,10 +851,26 @@ def ig_filter(tree, ignored):
   return out
 
 
+@functools.lru_cache(maxsize=None)
+def _decaying_optimizer(name, lr_exp):
+  """Optimizers with decoupled weight decay: they move a parameter even when its
+  gradient is zero."""
+  import optax
+  lr = 2.0 ** -lr_exp
+  if name == 'adamw':
+    return opt_lib.create_optimizer_from_optax(
+        optax.adamw(lr, b1=0.5, b2=0.75, eps=1e-3, weight_decay=0.25))
+  return opt_lib.create_optimizer_from_optax(
+      optax.chain(optax.add_decayed_weights(0.5), optax.sgd(lr)))
+
+
 def run_ignore(case):
   modules = case['modules']
   ignored = {(m, n) for m, n in case['ignore']}
-  base = opt_of({'name': case['opt'], 'lr_exp': case['lr_exp'], 'momentum': 4})
+  if case['opt'] in ('adamw', 'sgd_decay'):
+    base = _decaying_optimizer(case['opt'], case['lr_exp'])
+  else:
+    base = opt_of({'name': case['opt'], 'lr_exp': case['lr_exp'], 'momentum': 4})
   opt = opt_lib.ignore_grads_haiku(base, [(m, n) for m, n in case['ignore']])
   params = ig_tree(modules, case['params'])
   state = opt.init(params)
